@@ -62,7 +62,7 @@ func c09Order(c *Ctx) {
 			}
 			raw := call.Call.Args[0]
 			facts := guard.InstrFacts(call)
-			var verifyCall, decodeCall, validateCall *ssa.Call
+			var verifyCall, decodeCall, validateCall, helperCall *ssa.Call
 			for _, fct := range facts {
 				ec, isNil, ok := guard.ErrNilFact(fct)
 				if !ok || !isNil {
@@ -76,7 +76,28 @@ func c09Order(c *Ctx) {
 					decodeCall = ec
 				case strings.HasSuffix(nme, "jwt.Validator).Validate"):
 					validateCall = ec
+				default:
+					// a helper of the package that verifies the witness and only then decodes:
+					// its success stands for both facts, and its result is the decoded RawJWT
+					if h := ec.Call.StaticCallee(); h != nil && h.Blocks != nil && h.Pkg == f.Pkg && c09VerifiesThenDecodes(p, h, dec) {
+						helperCall = ec
+					}
 				}
+			}
+			if helperCall != nil && verifyCall == nil && decodeCall == nil {
+				why := ""
+				if validateCall == nil {
+					why = "not dominated by a successful Validator.Validate"
+				} else {
+					if rc, ri := guard.CallOf(raw); rc != helperCall || ri != 0 {
+						why = "the VerifiedJWT does not wrap the RawJWT returned by the verify-then-decode helper"
+					}
+					if vc, vi := guard.CallOf(validateCall.Call.Args[1]); vc != helperCall || vi != 0 {
+						why = "Validator.Validate is applied to another RawJWT than the one returned"
+					}
+				}
+				r.Check(why == "", "C09.order", key, p.Pos(call.Pos()), why, "verify-then-decode helper ok -> Validate(raw) ok -> newVerifiedJWT(raw)")
+				continue
 			}
 			why := ""
 			switch {
@@ -139,6 +160,52 @@ func c09Order(c *Ctx) {
 	}
 }
 
+// c09VerifiesThenDecodes: every success return of h hands back the result of
+// decodeUnsignedTokenAndValidateHeader(content, …) and is dominated by a
+// successful verification of []byte(content) made before that decoding.
+func c09VerifiesThenDecodes(p *core.Program, h, dec *ssa.Function) bool {
+	rets := guard.SuccessReturns(h)
+	if len(rets) == 0 {
+		return false
+	}
+	for _, ret := range rets {
+		dc, di := guard.CallOf(ret.Results[0])
+		if dc == nil || di != 0 || dc.Call.StaticCallee() != dec {
+			return false
+		}
+		var vcall *ssa.Call
+		for _, fct := range guard.BlockFacts(dc.Block()) {
+			if ec, isNil, ok := guard.ErrNilFact(fct); ok && isNil && (isVerifyName(guard.CalleeName(&ec.Call)) || isVerifyParam(p, h, ec)) {
+				vcall = ec
+			}
+		}
+		if vcall == nil {
+			return false
+		}
+		content := dc.Call.Args[0]
+		data := vcall.Call.Args[len(vcall.Call.Args)-1]
+		conv, isConv := guard.Strip(data).(*ssa.Convert)
+		if !isConv || guard.Strip(conv.X) != guard.Strip(content) {
+			return false
+		}
+		// the error of the decoding is what the helper returns (or it is checked)
+		if len(ret.Results) == 2 {
+			if ec, ei := guard.CallOf(ret.Results[1]); !(ec == dc && ei == 1) {
+				okNil := false
+				for _, fct := range guard.BlockFacts(ret.Block()) {
+					if e2, isNil, ok := guard.ErrNilFact(fct); ok && isNil && e2 == dc {
+						okNil = true
+					}
+				}
+				if !okNil {
+					return false
+				}
+			}
+		}
+	}
+	return true
+}
+
 func isVerifyName(nme string) bool {
 	nme = strings.TrimSuffix(nme, "$bound")
 	return nme == "("+core.ModPath+"/tink.Verifier).Verify" || nme == "("+core.ModPath+"/tink.MAC).VerifyMAC"
@@ -174,7 +241,15 @@ func isVerifyParam(p *core.Program, f *ssa.Function, ec *ssa.Call) bool {
 				bad = true
 				return
 			}
-			mc, isMC := guard.Strip(call.Common().Args[idx]).(*ssa.MakeClosure)
+			arg := guard.Strip(call.Common().Args[idx])
+			if prm2, isP := arg.(*ssa.Parameter); isP {
+				// handed through from an enclosing helper: the same must hold there
+				if !isVerifyParamOf(p, g, prm2, 0) {
+					bad = true
+				}
+				return
+			}
+			mc, isMC := arg.(*ssa.MakeClosure)
 			if !isMC || !strings.HasSuffix(mc.Fn.String(), "$bound") || !isVerifyName(mc.Fn.String()) {
 				bad = true
 			}
@@ -184,6 +259,46 @@ func isVerifyParam(p *core.Program, f *ssa.Function, ec *ssa.Call) bool {
 		}
 	}
 	return sites > 0
+}
+
+// isVerifyParamOf: parameter prm of f receives, at every call site of f, the
+// bound method value tink.Verifier.Verify / tink.MAC.VerifyMAC (possibly handed
+// through one more helper).
+func isVerifyParamOf(p *core.Program, f *ssa.Function, prm *ssa.Parameter, depth int) bool {
+	if depth > 2 {
+		return false
+	}
+	idx := -1
+	for i, q := range f.Params {
+		if q == prm {
+			idx = i
+		}
+	}
+	if idx < 0 {
+		return false
+	}
+	sites, good := 0, true
+	for _, g := range p.SortedFuncs(core.Product) {
+		allInstrs(g, func(ins ssa.Instruction) {
+			call, isCall := ins.(ssa.CallInstruction)
+			if !isCall || call.Common().StaticCallee() != f || idx >= len(call.Common().Args) {
+				return
+			}
+			sites++
+			arg := guard.Strip(call.Common().Args[idx])
+			if p2, isP := arg.(*ssa.Parameter); isP {
+				if !isVerifyParamOf(p, g, p2, depth+1) {
+					good = false
+				}
+				return
+			}
+			mc, isMC := arg.(*ssa.MakeClosure)
+			if !isMC || !strings.HasSuffix(mc.Fn.String(), "$bound") || !isVerifyName(mc.Fn.String()) {
+				good = false
+			}
+		})
+	}
+	return good && sites > 0
 }
 
 // ---------------------------------------------------------------- header
@@ -416,11 +531,52 @@ func c09Time(c *Ctx) {
 	var classify func(v ssa.Value, depth int) string
 	classify = func(v ssa.Value, depth int) string {
 		v = guard.Strip(v)
+		// a bound handed back by a helper of the package (earliest, latest := v.window()):
+		// the class of the corresponding result of every return
+		if ex, ok := v.(*ssa.Extract); ok && depth < 3 {
+			if hc, isCall := ex.Tuple.(*ssa.Call); isCall {
+				hn := guard.CalleeName(&hc.Call)
+				isClaimGetter := strings.HasSuffix(hn, "RawJWT).ExpiresAt") || strings.HasSuffix(hn, "RawJWT).NotBefore") || strings.HasSuffix(hn, "RawJWT).IssuedAt")
+				if h := hc.Call.StaticCallee(); !isClaimGetter && h != nil && h.Blocks != nil && h.Pkg == vt.Pkg && h.Signature.Results().Len() > 1 {
+					cls := ""
+					for _, ret := range guard.Returns(h) {
+						if ex.Index >= len(ret.Results) {
+							cls = "?"
+							continue
+						}
+						k := classify(ret.Results[ex.Index], depth+1)
+						if cls == "" {
+							cls = k
+						} else if cls != k {
+							cls = "?"
+						}
+					}
+					if cls != "" && cls != "?" {
+						return cls
+					}
+				}
+			}
+		}
 		if ex, ok := v.(*ssa.Extract); ok && ex.Index == 0 {
 			v = ex.Tuple
 		}
 		if call, ok := v.(*ssa.Call); ok {
 			n := guard.CalleeName(&call.Call)
+			// single-result helper returning a bound
+			if h := call.Call.StaticCallee(); h != nil && h.Blocks != nil && h.Pkg == vt.Pkg && h.Signature.Results().Len() == 1 && depth < 3 && n != "(time.Time).Add" {
+				cls := ""
+				for _, ret := range guard.Returns(h) {
+					k := classify(ret.Results[0], depth+1)
+					if cls == "" {
+						cls = k
+					} else if cls != k {
+						cls = "?"
+					}
+				}
+				if cls == "now-skew" || cls == "now+skew" || cls == "now" {
+					return cls
+				}
+			}
 			switch {
 			case strings.HasSuffix(n, "RawJWT).ExpiresAt"):
 				return "exp"
